@@ -28,6 +28,8 @@ func init() {
 			{ID: "C17-R2", Title: "constant type tables agree (compiler, marshal, unmarshal, VM)", Floor: 12, Run: c17r2},
 			{ID: "C17-R4", Title: "symbol-table id lookups respect the separator", Floor: 1, Run: c17r4},
 			{ID: "C17-R5", Title: "the loader links functions and code objects by id", Floor: 2, Run: c17r5},
+			{ID: "C17-R6", Title: "the compiler package keeps no state between loads (shared with C05-R4)", Floor: 3, Run: c05r4},
+			{ID: "C17-R7", Title: "marshalled bytes are not storage of a pooled object", Floor: 1, Run: func(c *core.Ctx) { pooledResult(c) }},
 		},
 	})
 }
